@@ -456,7 +456,11 @@ func init() {
 				return []Obligation{anchorMissing("PAIR.terminal-reset", "CallFrame.Terminal")}
 			}
 			var obs []Obligation
-			all := runSaveRestore(c, saveRestoreSpec{rule: "PAIR.terminal-reset", field: "lisp.CallFrame.Terminal", constPair: true})
+			all := runSaveRestore(c, saveRestoreSpec{rule: "PAIR.terminal-reset", field: "lisp.CallFrame.Terminal", constPair: true,
+				exempt: map[string]string{
+					"lisp.(*LEnv).funCall":       "reset at the start of a new iteration on a reused frame: the new call begins non-terminal, nothing is to be restored (TRO.mark-consumed checks the reset is on every loop turn)",
+					"lisp.(*LEnv).specialOpCall": "reset at the start of a new iteration on a reused frame (see funCall)",
+				}})
 			cs := c.censusFor(nil)
 			// only the stores of `false` are acquires; stores of true are decided by CENSUS.terminal
 			falseStores := map[string]bool{}
